@@ -165,7 +165,7 @@ def scenarios(draw, *, max_machines=6, max_obs=4, max_nodes=6,
               modes=('roomy', 'band'), delays=False, units=False,
               adversary=False, delay_model=False, min_obs=1,
               start_gaps=(0, 0, 0, 1, 1, 2, 3, 5, 10), max_duration=6,
-              few_machines=False, piled_plans=False, overlap=False, limit_binds=False, unsorted=False, long_durations=False):
+              few_machines=False, piled_plans=False, overlap=False, limit_binds=False, unsorted=False, long_durations=False, b2b=False):
     nm = draw(st.integers(2 if overlap else 1, 3 if few_machines else max_machines))
     hetero = draw(st.booleans())
     speeds = (1, 2, 5, 10, 20)
@@ -212,6 +212,8 @@ def scenarios(draw, *, max_machines=6, max_obs=4, max_nodes=6,
             lo, hi = 11, 12
     for i in range(nobs):
         t += draw(st.sampled_from(start_gaps))
+        if b2b and i > 0 and mode not in ('band', 'bandov') and draw(st.booleans()):
+            t = obs[-1]['start'] // u + obs[-1]['duration'] // u       # exactly back-to-back with the previous one
         if mode == 'bandov':
             vol = draw(st.integers(lo, hi))
             duration = draw(st.sampled_from([d for d in divisors(vol) if 3 <= d <= 24] or [vol]))
